@@ -227,8 +227,8 @@ impl SchedulerCore {
 
         // Find the first thread that is not marked as busy and schedule this task on it
         for &(ref busy_rc, ref thread) in threads.iter() {
-            if let Ok(mut busy) = busy_rc.try_lock() {
-                // If the busy lock is held, then we consider the thread to be busy
+            // Wait for the busy lock: it's held by a thread that's deciding whether or not to go dormant (if it does, it can be reused; if it doesn't it will pick up the new queue from the schedule)
+            if let Ok(mut busy) = busy_rc.lock() {
                 if !*busy {
                     // Clone the busy mutex so we can return this thread to readiness
                     let also_busy =  busy_rc.clone();
